@@ -1,7 +1,7 @@
 (* The single entry point of the executable model: one S-expression in, one out. *)
 From Coq Require Import String.
 From Morph Require Import Base.UStr Base.Sexp Gen.Tables Model.SqlTypes Model.Spec20 Model.Terms Model.Data Model.Engine
-  Model.Mapping Model.Partition Model.Spec Model.Wire Model.NQuads.
+  Model.Mapping Model.Partition Model.Spec Model.Wire Model.NQuads Model.Config.
 Local Open Scope N_scope.
 
 Definition run_c20 (tag : ustr) (args : list sexp) : option sexp :=
@@ -118,13 +118,37 @@ Definition run_str (tag : ustr) (args : list sexp) : option sexp :=
     end
   else None.
 
+(* ---- configuration family *)
+Definition sx_optbool (o : option bool) : sexp := match o with Some b => sx_bool b | None => A (u "error") end.
+Definition run_cfg (tag : ustr) (args : list sexp) : option sexp :=
+  if tag_is tag "config.load" then
+    match args with
+    | [pairs; A group] =>
+        do m <- de_listof de_pair pairs;
+        Some (match load m with
+              | Err e => L [A (u "error"); A (err_name e)]
+              | Ok m' =>
+                  let g k := match cget m' k with Some v => v | None => u "<missing>" end in
+                  L [A (u "ok");
+                     L [A (g Tables.o_output_format); A (g Tables.o_logging_level); A (g Tables.o_mapping_partitioning);
+                        A (g Tables.o_output_dir); A (g Tables.o_output_file); A (g Tables.o_safe_percent_encoding);
+                        A (match getint (g Tables.o_number_of_processes) with Some z => dec_of_Z z | None => u "error" end)];
+                     sx_strs (na_values (g Tables.o_na_values));
+                     sx_optbool (getboolean (g Tables.o_only_printable_chars));
+                     sx_optbool (getboolean (g Tables.o_infer_sql_datatypes));
+                     sx_opt (output_path m' group)]
+              end)
+    | _ => None
+    end
+  else None.
+
 Fixpoint first_some {T} (l : list (option T)) : option T :=
   match l with [] => None | Some x :: _ => Some x | None :: r => first_some r end.
 
 Definition run_case (x : sexp) : sexp :=
   match x with
   | L (A tag :: args) =>
-      match first_some [run_c20 tag args; run_map tag args; run_str tag args] with
+      match first_some [run_c20 tag args; run_map tag args; run_str tag args; run_cfg tag args] with
       | Some r => r
       | None => sx_err (u "bad-case")
       end
